@@ -87,7 +87,7 @@ class C10(StructCheck):
         return any(o.startswith('ref') for o in ops) or any(len(o.split()) > 4 for o in ops if o.startswith('new'))
 
 class C05(StructCheck):
-    level = 'translation_validation'
+    level = 'proof'
     pid = 'C05'; props_file = 'Props_C05'
     rule = ('corpus + random op lists over key pools chosen with the REAL hash function (random keys, keys sharing one '
             'home slot, keys homed at the last slots of the table, consecutive homes), all flag combinations, iterator and '
